@@ -2608,7 +2608,12 @@ class AggregateBase(UnitsManaged, Saveable, OpenSystem):
 
 
         if temp == 0.0:
-            rho0[start,start] = 1.0
+            # zero temperature limit of the canonical distribution:
+            # the state of the lowest energy is populated
+            ens0 = [numpy.real(HH[i,i] - subtract[i-start])
+                    for i in range(start, dim)]
+            lowest = start + int(numpy.argmin(ens0))
+            rho0[lowest,lowest] = 1.0
 
         else:
             # FIXME: we assume only single exciton band
